@@ -15,8 +15,12 @@ What the readers do (found by reading treeinput.py and confirmed by the runs of 
     model, distributed differently inside the sentence whenever a `#5xx` child stands left of a token child.
   * tigerxml: all `<t>` in document order, then all `<nt>` in document order, then the added VROOT (if any) - children
     before parents as a rule.  Again the same block per sentence, another distribution.  A sentence that is SKIPPED
-    (several roots, a cycle, two incoming edges) has drawn its ids before it is dropped: the blocks of the later sentences
-    of that call and of all later calls are shifted against the model (`CallX.read (.ok _) drawn` ignores `drawn`).
+    (several roots, a cycle, two incoming edges) has drawn its ids before it is dropped.  Since wave 19 (P9) the model
+    counts them: `CallX.read (.ok ts) drawn` moves the counter by the nodes of `ts` AND by `drawn` = the ids of the skipped
+    sentences (ids drawn by the call minus nodes delivered, `driver_args`), added AFTER the delivered sentences.  So the
+    counter after the call and every later call agree exactly; inside the call the delivered sentences behind a skipped
+    one have the implementation's block SIZES and ORDER but lie lower by the skipped ids: `skip_case` compares them after
+    closing the gaps inside that call (`close_gaps`), and everything else exactly.
 So every history gives: `ids_history_sorted` (the block of ids of every sentence, and the counter at the end) compared
 exactly, `ids_history` exactly where all calls are bracket readers, and - on the implementation alone, which is what
 `historyX_independent` says - every call of the history against the same call in a fresh process: equal up to `+ k`.
@@ -82,6 +86,7 @@ def _run_history(calls):
             except Exception as e:          # noqa: BLE001
                 r = {"err": proto.err_name(e)}
             r["drawn"] = _counter(trees) - before
+            r["before"] = before
             res.append(r)
         return {"start": start, "results": res, "next": _counter(trees)}
     finally:
@@ -147,8 +152,59 @@ def driver_args(calls, h):
     import proto
     args = []
     for c, r in zip(calls, h["results"]):
-        args += [c["fmt"], proto.enc_opts(c["opts"]), str(r["drawn"]), c["srcarg"]]
+        args += [c["fmt"], proto.enc_opts(c["opts"]), str(undelivered(r)), c["srcarg"]]
     return args
+
+
+def undelivered(r):
+    """the model's `drawn`: ids drawn by nodes the call created and did not deliver - all of a failing call, those of
+       the skipped sentences of a call that succeeds"""
+    if "err" in r:
+        return r["drawn"]
+    return r["drawn"] - sum(len(s[1]) for s in r["ok"])
+
+
+def close_gaps(r):
+    """the result of a call with the ids drawn by skipped sentences BETWEEN its delivered sentences taken out: every
+       delivered sentence moved down by the ids that were drawn inside this call before it and belong to no delivered
+       sentence (the form of the model, which adds the skipped ids behind the delivered sentences)"""
+    if "err" in r:
+        return r
+    nxt, out = r["before"], []
+    for s in r["ok"]:
+        gap = min(s[1]) - nxt
+        out.append([s[0], [x - gap for x in s[1]], [x - gap for x in s[2]]])
+        nxt = max(s[1]) - gap + 1
+    return dict(r, ok=out)
+
+
+def skip_sentence(rng, text):
+    """a TIGER-XML document in which one sentence got a second root (an <nt> without edges that nobody points to): the
+       reader creates all its nodes and then skips it.  Returns (text, number of sentences) or None"""
+    marks = [m.start() for m in re.finditer(r"[ \t]*</nonterminals>", text)]
+    if not marks:
+        return None
+    at = rng.choice(marks)
+    return text[:at] + '    <nt id="9%03d" cat="XX" />\n' % rng.randint(0, 999) + text[at:], len(marks)
+
+
+def make_skip_call(rng):
+    """a tigerxml reader call whose file has (at least) one sentence with several roots"""
+    import srccases
+    from props import c03
+    while True:
+        F, ts, text, opts, srcarg = srccases.make_source(rng)
+        if F != "tigerxml":
+            continue
+        got = skip_sentence(rng, text)
+        if got is None:
+            continue
+        text = got[0]
+        if rng.random() < 0.3:
+            again = skip_sentence(rng, text)
+            if again is not None:
+                text = again[0]
+        return {"fmt": F, "text": text, "opts": opts, "srcarg": c03.xsents(text)}
 
 
 def shift_of(whole, fresh):
@@ -220,6 +276,38 @@ def id_case(rng, with_fresh=True, only=None):
                 nontrivial=nontrivial)
 
 
+def skip_case(rng):
+    """a history of 2..4 reader calls, at least one of them a TIGER-XML call with a skipped sentence (and that one possibly
+       twice).  Lines:
+       corr ids_history_sorted  - the implementation's blocks with the gaps INSIDE a call closed (`close_gaps`) and the
+                                  final counter = the model's: block sizes, order, the start of every call, the counter
+       pred P.C18.eq            - the witness property: some call drew more ids than it delivered nodes
+       pred P.C18.eq            - the counter after the history = start + all ids drawn (implementation alone)"""
+    import proto
+    from core import Case, Line
+    calls = [make_call(rng, allow_broken=False) for _ in range(rng.randint(1, 3))]
+    sk = make_skip_call(rng)
+    calls.insert(rng.randint(0, len(calls)), sk)
+    if rng.random() < 0.5:
+        calls.insert(rng.randint(0, len(calls)), dict(sk))
+    send = [{"fmt": c["fmt"], "text": c["text"], "opts": c["opts"]} for c in calls]
+    h = run_history(send)
+    args = driver_args(calls, h)
+    closed = dict(h, results=[close_gaps(r) for r in h["results"]])
+    skipped = [undelivered(r) for r in h["results"] if "ok" in r]
+    lines = [Line("corr", "ids_history_sorted", args, fmt_history(closed, "sorted"),
+                  note="skipped sentence(s): blocks with in-call gaps closed, counter exact, " + "+".join(c["fmt"] for c in calls)),
+             Line("pred", "P.C18.eq", [proto.enc_s("skipped ids"), proto.enc_s("skipped ids" if any(k > 0 for k in skipped) else "none skipped")],
+                  note="a succeeding call drew ids for nodes it did not deliver: %s" % skipped),
+             Line("pred", "P.C18.eq", [str(h["next"]), str(h["start"] + sum(r["drawn"] for r in h["results"]))],
+                  note="counter = all ids drawn")]
+    if closed["results"] == h["results"]:
+        # every skipped sentence stands BEHIND the delivered ones of its call (or the call delivers nothing): exact blocks
+        lines.append(Line("corr", "ids_history_sorted", args, fmt_history(h, "sorted"), note="skipped sentences last in their calls: exact blocks"))
+    return Case("ids-skip", {"calls": [{"fmt": c["fmt"], "opts": c["opts"], "text": c["text"]} for c in calls]}, lines,
+                nontrivial=any(k > 0 for k in skipped))
+
+
 def id_cases(rng, n, with_fresh=True):
     """n histories of reader calls (every third one of bracket readers only, where the ids are compared node by node)"""
     import random
@@ -227,6 +315,9 @@ def id_cases(rng, n, with_fresh=True):
     for i in range(n):
         sub = random.Random(rng.getrandbits(64))
         out.append(id_case(sub, with_fresh=with_fresh, only=BRACKET_FORMATS if i % 3 == 0 else None))
+    for i in range(max(2, n // 4)):
+        # wave 19 (P9): histories with a skipped TIGER-XML sentence (drawn AFTER the n histories above: their seeds stay)
+        out.append(skip_case(random.Random(rng.getrandbits(64))))
     return out
 
 
